@@ -16,7 +16,7 @@ for d in sorted(glob.glob('/verif/seeded/*/')):
     elif missed:
         mm = re.search(r'(C\d\d) strengthened', hist)
         note = f"missed at first; {mm.group(1) if mm else 'check'} strengthened, now caught"
-    if re.search(r'round [456]:', hist) and re.search(r'missed', hist):
+    if re.search(r'round [4567]:', hist) and re.search(r'missed', hist):
         note = f"missed at first; {m['breaks_property']} strengthened, now caught"
     if 'machinery errors' in hist:
         note = "four checks ended as machinery errors at first; the driver now reports escaped subject panics"
